@@ -517,7 +517,7 @@ impl World {
     pub fn added_lines(&mut self, from: &str, to: &str, path: &str) -> BTreeSet<u32> {
         let o = self.rgit(&[
             "-c", "core.quotePath=false", "--literal-pathspecs", "diff", "-U0", "--no-renames", "--no-color", "--no-ext-diff",
-            "--no-textconv", "--diff-algorithm=myers", "--no-indent-heuristic", from, to, "--", path,
+            "--no-textconv", "--diff-algorithm=myers", "--no-indent-heuristic", "--inter-hunk-context=0", "--src-prefix=a/", "--dst-prefix=b/", from, to, "--", path,
         ]);
         crate::diffp::added_lines_single_file(&o.stdout)
     }
